@@ -1,0 +1,32 @@
+//go:build verif
+
+package verifiable
+
+import (
+	"math/big"
+
+	"github.com/iden3/go-merkletree-sql/v2"
+)
+
+// Entry points used by the verification harness (/verif, property C09).
+// Compiled only with the build tag "verif"; thin wrappers of unexported
+// functions, they add no behaviour.
+
+// VerifCoerceCredentialStatus exposes coerceCredentialStatus.
+func VerifCoerceCredentialStatus(credStatus any) (*CredentialStatus, error) {
+	return coerceCredentialStatus(credStatus)
+}
+
+// VerifValidateTreeState exposes validateTreeState.
+func VerifValidateTreeState(i TreeState) (bool, error) {
+	return validateTreeState(i)
+}
+
+// VerifRootFromMerkleTreeProof exposes rootFromMerkleTreeProof.
+func VerifRootFromMerkleTreeProof(proof *merkletree.Proof,
+	k, v *big.Int) (*merkletree.Hash, error) {
+	return rootFromMerkleTreeProof(proof, k, v)
+}
+
+// VerifLimitReaderBytes exposes the body size limit of IssuerResolver.
+const VerifLimitReaderBytes = limitReaderBytes
